@@ -62,6 +62,12 @@ func c09FaultDrivers() []concParams {
 		add(fmt.Sprintf("flush+table-create-fault#%d-vs-readonly", nth), "flushy/bytewise", []string{"put:a"}, [][]string{{"put:a", "put:b"}, {"ro", "put:c"}, {"get:a"}}, f(vstor.KCreate, storage.TypeTable, nth, 3, vstor.ModeFail))
 		out[len(out)-1].QB = 2
 	}
+	// Close arrives while a compaction sits in its commit back-off (manifest faults) and a
+	// transaction commit waits behind it
+	for nth := 1; nth <= 2; nth++ {
+		add(fmt.Sprintf("compact+manifest-sync-fault#%d-vs-tr-vs-close", nth), "flushy/bytewise", []string{"put:a", "put:b"}, [][]string{{"cr"}, {"tr:+a,+b"}, {"close"}}, f(vstor.KSync, storage.TypeManifest, nth, 3, vstor.ModeFail))
+		out[len(out)-1].QB = 2
+	}
 	add("compact+manifest-write-fault-vs-tr", "flushy/bytewise", []string{"put:a", "put:b"}, [][]string{{"cr"}, {"tr:+a,+b"}, {"put:c"}}, f(vstor.KWrite, storage.TypeManifest, 1, 1, vstor.ModeFail))
 	return out
 }
